@@ -11,10 +11,12 @@ PROPS = ('C01',)
 
 
 def plan(tier, seed):
-    return _histcheck.plan(lambda t: (genhist.n_core_additions(t, genhist.nadd_for(t, tier)) * 2 + genhist.n_core_mixed(t, 1 if tier == 'quick' else 2) * 2 + 400))
+    return [{'mode': 'repotests', 'cost': 3000}] + _histcheck.plan(lambda t: (genhist.n_core_additions(t, genhist.nadd_for(t, tier)) * 2 + genhist.n_core_mixed(t, 1 if tier == 'quick' else 2) * 2 + 400))
 
 
 def run_shard(shard, tier, seed):
+    if shard.get('mode') == 'repotests':
+        return _histcheck.run_repo_tests(PROPERTY)
     t = shard['type']
     n = genhist.nadd_for(t, tier)
     m = 1 if tier == 'quick' else 2
@@ -24,4 +26,7 @@ def run_shard(shard, tier, seed):
 
 
 def replay_case(rp):
+    if 'hist' not in rp['case']:
+        res = _histcheck.run_repo_tests(PROPERTY)
+        return {'violated': bool(res['violations']), 'violations': res['violations'][:3]}
     return _histcheck.replay_case(rp, PROPERTY, PROPS)
